@@ -21,20 +21,20 @@ __CPROVER_ensures((__CPROVER_old(f->pos) <= wv_rP && wv_rP < __CPROVER_old(f->po
 __CPROVER_ensures(WV_RD8(0) && WV_RD8(1) && WV_RD8(2) && WV_RD8(3) && WV_RD8(4) && WV_RD8(5) && WV_RD8(6) && WV_RD8(7));
 
 int wv_feof(wv_FILE *f)
-__CPROVER_requires(__CPROVER_is_fresh(f, sizeof(*f)) && WV_FILE_OK(f))
+__CPROVER_requires(__CPROVER_is_fresh(f, sizeof(*f)) && WV_FILE_OPEN(f))
 __CPROVER_assigns()
 __CPROVER_ensures((__CPROVER_return_value != 0) == f->eof);
 
 /* fgetc: EOF (and the indicator set) at end of file, otherwise one byte is consumed */
 int wv_fgetc(wv_FILE *f)
-__CPROVER_requires(__CPROVER_is_fresh(f, sizeof(*f)) && WV_FILE_OK(f))
+__CPROVER_requires(__CPROVER_is_fresh(f, sizeof(*f)) && WV_FILE_OPEN(f))
 __CPROVER_assigns(f->pos, f->eof)
-__CPROVER_ensures(__CPROVER_old(f->pos) == f->len ? (__CPROVER_return_value == EOF && f->eof && f->pos == __CPROVER_old(f->pos))
+__CPROVER_ensures(__CPROVER_old(f->pos) >= f->len ? (__CPROVER_return_value == EOF && f->eof && f->pos == __CPROVER_old(f->pos))
                                                   : (__CPROVER_return_value >= 0 && __CPROVER_return_value <= 255 && f->pos == __CPROVER_old(f->pos) + 1 && f->eof == __CPROVER_old(f->eof)));
 
 /* ungetc of the byte just read: the position goes back by one and the EOF indicator is cleared */
 int wv_ungetc(int c, wv_FILE *f)
-__CPROVER_requires(__CPROVER_is_fresh(f, sizeof(*f)) && WV_FILE_OK(f) && f->pos >= 1 && c >= 0 && c <= 255)
+__CPROVER_requires(__CPROVER_is_fresh(f, sizeof(*f)) && WV_FILE_OPEN(f) && f->pos >= 1 && c >= 0 && c <= 255)
 __CPROVER_assigns(f->pos, f->eof)
 __CPROVER_ensures(__CPROVER_return_value == c && f->pos == __CPROVER_old(f->pos) - 1 && !f->eof);
 
